@@ -30,6 +30,16 @@ Proof. apply frame_keeps. apply frame_ret. Qed.
 Lemma frame_panic {A} : frame (@panic K V T A).
 Proof. intros w. apply wp_panic. reflexivity. Qed.
 
+(* unwinding cleanup that only runs destructors of locals keeps everything *)
+Lemma keeps_on_unwind {A} (cleanup : M unit) (c : M A) :
+  frame cleanup -> keeps c -> keeps (on_unwind cleanup c).
+Proof.
+  intros Hf Hc w Hw. apply wp_on_unwind_frame; [exact Hf|].
+  eapply wp_mono; [apply Hc; exact Hw | |]; cbn beta.
+  - intros _ w' H. exact H.
+  - intros w' H w'' Hs. eapply inv_post_frame; eauto.
+Qed.
+
 Lemma frame_keep_value e : frame (keep_value E e).
 Proof.
   destruct e as [[k' v']|]; cbn [keep_value].
@@ -62,6 +72,7 @@ Lemma insert_ii_spec k v u w :
      (fun r w' => inv_post w w' /\ fst r < len (self w')) (inv_post w) w.
 Proof.
   intros Hw. unfold insert_ii. apply wp_bind.
+  apply wp_on_unwind_frame; [apply frame_unwind_pair|].
   eapply wp_mono; [apply scan_spec; [intros; apply frame_test_k | exact Hw] | |]; cbn beta.
   - intros [i|] w' [Hs Hi].
     + destruct (WF_live _ _ Hw Hi) as [p Hp].
@@ -74,15 +85,18 @@ Proof.
         apply wp_ret. unfold inv_post. simp_w. rewrite Hs. cbn [fst].
         split; [split; [apply WF_set_slot_some; auto | apply cap_set_slot] | exact Hi].
     + apply wp_bind. apply wp_get_len. apply wp_bind. apply wp_get_cap.
+      apply wp_bind. apply wp_on_unwind_frame; [apply frame_unwind_pair|].
       apply wp_bind. apply wp_dbg_assert.
-      * intros _. apply wp_bind. apply wp_p_write_checked.
-        -- intros Hc. apply wp_bind. apply wp_set_len. apply wp_ret.
-           unfold inv_post. simp_w. rewrite Hs in *. cbn [fst].
-           split; [|lia].
-           split; [apply WF_append; auto | rewrite cap_set_len, cap_set_slot; reflexivity].
-        -- intros _. apply inv_post_refl; auto.
-      * intros _ _. apply inv_post_refl; auto.
-  - intros w' Hs. apply inv_post_refl; auto.
+      * intros _. apply wp_check_index.
+        -- intros Hc. apply wp_bind. apply wp_p_write_checked.
+           ++ intros _. apply wp_bind. apply wp_set_len. apply wp_ret.
+              unfold inv_post. simp_w. rewrite Hs in *. cbn [fst].
+              split; [|lia].
+              split; [apply WF_append; auto | rewrite cap_set_len, cap_set_slot; reflexivity].
+           ++ intros _. apply inv_post_refl; auto.
+        -- intros _ w'' Hs''. apply inv_post_refl; [exact Hw | congruence].
+      * intros _ _ w'' Hs''. apply inv_post_refl; [exact Hw | congruence].
+  - intros w' Hs w'' Hs''. apply inv_post_refl; [exact Hw | congruence].
 Qed.
 
 Lemma keeps_insert k v : keeps (insert E debug k v).
@@ -112,13 +126,14 @@ Lemma entry_of_spec k (w : world) :
      (fun w' => self w' = self w) w.
 Proof.
   intros Hw. unfold entry_of. apply wp_bind.
+  apply wp_on_unwind_frame; [apply frame_unwind_key|].
   eapply wp_mono; [apply scan_spec; [intros; apply frame_test_k | exact Hw] | |]; cbn beta.
   - intros [i|] w' [Hs Hi].
     + apply wp_bind. apply wp_frame; [apply frame_drop_key | |].
       * intros _ w'' Hs'. apply wp_ret. split; [congruence | exact Hi].
       * intros w'' Hs'. congruence.
     + apply wp_ret. split; [exact Hs | exact I].
-  - intros w' Hs. exact Hs.
+  - intros w' Hs w'' Hs''. congruence.
 Qed.
 
 (* A2 *)
@@ -410,8 +425,13 @@ Lemma keeps_s_extend_loop nx items : keeps (s_extend_loop E debug nx items).
 Proof.
   induction items as [|k rest IH]; cbn [s_extend_loop].
   - apply frame_keeps. apply frame_call_next.
-  - apply keeps_bind; [apply frame_keeps; apply frame_call_next|]. intros _.
-    apply keeps_bind; [apply keeps_s_insert|]. intros _. exact IH.
+  - apply keeps_bind.
+    { apply keeps_on_unwind; [apply frame_unwind_pairs|].
+      apply frame_keeps. apply frame_call_next. }
+    intros _. apply keeps_bind.
+    { apply keeps_on_unwind; [apply frame_unwind_pairs|].
+      apply keeps_bind; [apply keeps_s_insert|]. intros _. apply keeps_ret. }
+    intros _. exact IH.
 Qed.
 
 Lemma keeps_s_extend nx items : keeps (s_extend E debug nx items).
